@@ -394,6 +394,35 @@ func runC14(r *Run) {
 				r.Fail("a NOERROR / NXDOMAIN reply arrived while the context was alive, but it is not what the call returned", desc)
 			}
 		}
+		hasNever, ctxEnded := false, false
+		for _, cl := range calls {
+			if cl.outcome == "never" {
+				hasNever = true
+			}
+		}
+		for _, e := range evs {
+			if e == "ctx" {
+				ctxEnded = true
+			}
+		}
+		if firstGood == "" && !hasNever && !ctxEnded && len(evs) > 0 {
+			// every queried upstream has finished and none was good: the outcome is that of the last exchange to finish
+			last := evs[len(evs)-1]
+			want := "errAll"
+			if last[0] == 'b' {
+				want = "reply:2:" + last[1:]
+			} else if last[0] == 'f' {
+				want = "reply:5:" + last[1:]
+			}
+			if out != want {
+				desc["expected"] = want
+				if pending {
+					r.Fail("every queried upstream had finished (none with NOERROR / NXDOMAIN) and the context was alive, but the call did not return", desc)
+				} else {
+					r.Fail("no NOERROR / NXDOMAIN reply arrived, but the outcome is not that of the last exchange to finish", desc)
+				}
+			}
+		}
 		if len(evs) == 0 {
 			evs = []string{"-"}
 		}
